@@ -30,17 +30,17 @@ theorem api_errval_matches_doc : ∀ e ∈ apiTable, e.errvalMatchesDoc = true :
 /-- entry points that are allowed to run without exception protection: context creation/destruction,
 the handler setters, `free`, and three `delete`s of plain parameter structs -/
 def unwrappedAllowed : List String :=
-  ["GEOS_init_r", "initGEOS_r", "GEOS_finish_r", "finishGEOS_r", "GEOSFree_r",
+  ["GEOSBufferParams_destroy_r", "GEOSClusterInfo_destroy_r",
    "GEOSContext_setErrorHandler_r", "GEOSContext_setErrorMessageHandler_r",
    "GEOSContext_setNoticeHandler_r", "GEOSContext_setNoticeMessageHandler_r",
-   "GEOSBufferParams_destroy_r", "GEOSClusterInfo_destroy_r", "GEOSMakeValidParams_destroy_r"]
+   "GEOSFree_r", "GEOSMakeValidParams_destroy_r", "GEOS_finish_r", "GEOS_init_r", "finishGEOS_r", "initGEOS_r"]
 
 /-- every other entry point runs inside `execute` (directly, or only by calling entry points that do) or
 inside a hand-written `try/catch(...)` -/
 theorem api_all_wrapped : ∀ e ∈ apiTable, e.guarded = true ∨ e.name ∈ unwrappedAllowed := by decide +kernel
 
-/-- the allow-list is tight: each of its members exists and is indeed unprotected -/
-theorem api_unwrapped_exact : ∀ n ∈ unwrappedAllowed, (lookup apiTable n).any (fun e => !e.guarded) = true := by
+/-- the allow-list is tight: it is exactly the list of unprotected entry points (in table order) -/
+theorem api_unwrapped_exact : (apiTable.filter (fun e => !e.guarded)).map (·.name) = unwrappedAllowed := by
   decide +kernel
 
 /-- every predicate returning `char` reports an exception as 2 -/
@@ -83,20 +83,19 @@ def sridNotSyntactic : List String :=
    -- operations on arrays of geometries (no single "first argument")
    "GEOSPolygonize_r", "GEOSPolygonize_valid_r", "GEOSPolygonizer_getCutEdges_r"]
 
-/-- every function of the explicit list sets the SRID of its result from its first geometry argument -/
+/-- the constructive entry points that set the SRID of their result from their first geometry argument
+are exactly the functions of the explicit list (in table order): each of them exists, is constructive and
+has the `setSRID(first->getSRID())` -/
 theorem api_srid_from_first :
-    ∀ n ∈ sridFromFirstList, (lookup apiTable n).any (fun e => e.isConstructive && e.sridFromFirst) = true := by
+    (apiTable.filter (fun e => e.isConstructive && e.sridFromFirst)).map (·.name) = sridFromFirstList := by
   decide +kernel
 
-/-- the two lists classify *every* constructive entry point of the current source: a new constructive
-function without SRID handling cannot slip in unnoticed -/
+/-- *every* constructive entry point of the current source either sets the SRID from its first argument
+or is named in `sridNotSyntactic`: a new constructive function without SRID handling cannot slip in
+unnoticed -/
 theorem api_constructive_classified :
-    ∀ e ∈ apiTable, e.isConstructive = true →
-      (e.sridFromFirst = true ∧ e.name ∈ sridFromFirstList) ∨ (e.sridFromFirst = false ∧ e.name ∈ sridNotSyntactic) := by
+    ∀ e ∈ apiTable, e.isConstructive = true → e.sridFromFirst = true ∨ e.name ∈ sridNotSyntactic := by
   decide +kernel
-
-/-- entry-point names are unique, so `lookup` (used by the driver) is unambiguous -/
-theorem api_names_nodup : (names apiTable).Nodup := by decide +kernel
 
 /-- every entry point gets a result specification, and borrowed results only come from functions with an
 object argument to own them (so the model's `borrowed` legality condition can be met) -/
@@ -175,18 +174,9 @@ theorem results_fresh (h : Heap) (c : Call) (obs : Obs) (h' : Heap) (ids : List 
         rw [List.getElem?_append_right (by simp)]
         simp
       have hk' : k < (newObjs h c n).length := by omega
-      have hmem : (newObjs h c n)[k] ∈ newObjs h c n := List.getElem_mem hk'
-      have hlive : ((newObjs h c n)[k]).live = true := by
-        unfold newObjs at hmem ⊢
-        cases hres : c.res with
-        | none => simp [newObjs, hres] at hk'
-        | owned _ => simp [hres]
-        | ownedMany _ => simp [hres]
-        | borrowed _ => simp [hres]
+      have hlive : ((newObjs h c n)[k]).live = true := newObjs_live h c n _ (List.getElem_mem hk')
       simp only [isLive, hget, List.getElem?_eq_getElem hk', hlive]
-    · refine List.Nodup.map_on ?_ List.nodup_range
-      intro a _ b _ hab
-      omega
+    · exact range_shift_nodup n h.length
 
 /-- **const_args_unchanged**: a call changes only the objects its signature lets it consume or modify
 (and the views into them): every other object — in particular every `const` argument and every object
@@ -200,7 +190,7 @@ theorem const_args_unchanged (h : Heap) (c : Call) (obs : Obs) (h' : Heap) (out 
   simp [touch_untouched c _ i o hi hp]
 
 /-- read-only arguments of a legal call are among the unchanged objects -/
-theorem readOnly_arg_unchanged (h : Heap) (wf : WF h) (c : Call) (obs : Obs) (h' : Heap) (out : Outcome)
+theorem readOnly_arg_unchanged (h : Heap) (c : Call) (obs : Obs) (h' : Heap) (out : Outcome)
     (hs : step h c obs = .ok (h', out)) (i : Id) (hi : i ∈ c.readOnly) : h'[i]? = h[i]? := by
   obtain ⟨hl, _, _⟩ := (step_ok_iff h c obs _ _).mp hs
   obtain ⟨o, hg, hlive⟩ := hl.arg_live i (idsOf_sub_allIds c _ i hi)
@@ -296,38 +286,32 @@ example : ∃ h' outs, run [] demo = .ok (h', outs) ∧
   refine ⟨_, _, rfl, ?_, ?_⟩ <;> decide +kernel
 
 /-- the hypothesis of `finish_no_leak` is satisfiable (by the history above) -/
-example : ∀ (i : Id) (o : Obj), (match run [] demo with | .ok (h', _) => h' | .error _ => [])[i]? = some o →
-    o.owner = none → i ∈ consumedAll demo := by
-  intro i o hg ho
-  have : i < 4 := by
-    have := (List.getElem?_eq_some_iff.mp hg).1
-    exact this
-  match i, this with
-  | 0, _ => decide +kernel
-  | 1, _ => decide +kernel
-  | 2, _ => revert hg ho; decide +kernel
-  | 3, _ => decide +kernel
+example : ∀ (i : Id) (o : Obj), (heapAfter demo)[i]? = some o → o.owner = none → i ∈ consumedAll demo :=
+  allOwnedConsumed_spec _ _ (by decide +kernel)
 
 /-- illegal: destroying the base geometry while a prepared geometry built on it is alive -/
-example : ∃ e, run [] [(sigCoordSeqCreate, .ok 1), (sigCreateLineString 0, .ok 1), (sigPrepare 1, .ok 1),
-    (sigGeomDestroy 1, .ok 0)] = .error e := ⟨_, by decide +kernel⟩
+example : accepted [(sigCoordSeqCreate, .ok 1), (sigCreateLineString 0, .ok 1), (sigPrepare 1, .ok 1),
+    (sigGeomDestroy 1, .ok 0)] = false := by decide +kernel
 
 /-- illegal: double destroy -/
-example : ∃ e, run [] [(sigCoordSeqCreate, .ok 1), (sigCoordSeqDestroy 0, .ok 0), (sigCoordSeqDestroy 0, .ok 0)]
-    = .error e := ⟨_, by decide +kernel⟩
+example : accepted [(sigCoordSeqCreate, .ok 1), (sigCoordSeqDestroy 0, .ok 0), (sigCoordSeqDestroy 0, .ok 0)]
+    = false := by decide +kernel
 
 /-- illegal: using a coordinate sequence after a constructor took it — even if the constructor failed -/
-example : ∃ e, run [] [(sigCoordSeqCreate, .ok 1), (sigCreateLineString 0, .err), (sigCoordSeqDestroy 0, .ok 0)]
-    = .error e := ⟨_, by decide +kernel⟩
+example : accepted [(sigCoordSeqCreate, .ok 1), (sigCreateLineString 0, .err), (sigCoordSeqDestroy 0, .ok 0)]
+    = false := by decide +kernel
 
 /-- illegal: destroying a view; using a view after its parent was modified -/
-example : ∃ e, run [] [(sigCoordSeqCreate, .ok 1), (sigCreateLineString 0, .ok 1), (sigGetCoordSeq 1, .ok 1),
-    (sigCoordSeqDestroy 2, .ok 0)] = .error e := ⟨_, by decide +kernel⟩
-example : ∃ e, run [] [(sigCoordSeqCreate, .ok 1), (sigCreateLineString 0, .ok 1), (sigGetCoordSeq 1, .ok 1),
-    (sigSetSRID 1, .ok 0), (sigCoordSeqDestroy 2, .ok 0)] = .error e := ⟨_, by decide +kernel⟩
+example : accepted [(sigCoordSeqCreate, .ok 1), (sigCreateLineString 0, .ok 1), (sigGetCoordSeq 1, .ok 1),
+    (sigCoordSeqDestroy 2, .ok 0)] = false := by decide +kernel
+example : accepted [(sigCoordSeqCreate, .ok 1), (sigCreateLineString 0, .ok 1), (sigGetCoordSeq 1, .ok 1),
+    (sigSetSRID 1, .ok 0), (sigIntersects 2 2, .ok 0)] = false := by decide +kernel
 
 /-- illegal: the same geometry twice in a consumed array (would be a double free) -/
-example : ∃ e, run [] [(sigCoordSeqCreate, .ok 1), (sigCreateLineString 0, .ok 1), (sigCreateCollection [1, 1], .ok 1)]
-    = .error e := ⟨_, by decide +kernel⟩
+example : accepted [(sigCoordSeqCreate, .ok 1), (sigCreateLineString 0, .ok 1), (sigCreateCollection [1, 1], .ok 1)]
+    = false := by decide +kernel
+
+/-- …while the legal history is accepted -/
+example : accepted demo = true := by decide +kernel
 
 end GeosModel.Api
